@@ -225,11 +225,8 @@ theorem allowSub_routerSwapOps {name : Asset → String} {w w' : World} {sender 
 
 theorem allowSub_routerReceive {name : Asset → String} {w w' : World} {from_ : Nat} {hk : Hook}
     (h : routerReceive name w from_ hk = .ok w') : AllowSub w w' := by
-  cases hk with
-  | routerOps ops mn to => exact allowSub_routerSwapOps h
-  | swap offer amt b ms to => cases h
-  | withdraw => cases h
-  | garbage => cases h
+  obtain ⟨ops, mn, to, rfl, _, _, h⟩ := routerReceive_ok h
+  exact allowSub_routerSwapOps h
 
 theorem allowSub_routerExec {name : Asset → String} {w w' : World} {sender : Nat} {funds : List (Nat × Nat)}
     {m : RouterMsg} (h : routerExec name w sender funds m = .ok w') : AllowSub w w' := by
@@ -238,11 +235,17 @@ theorem allowSub_routerExec {name : Asset → String} {w w' : World} {sender : N
   obtain ⟨w0, h0, h⟩ := h
   refine (allowSub_attach h0).trans ?_
   cases m with
-  | swapOps ops mn to => exact allowSub_routerSwapOps h
-  | swapOp o a to => exact allowSub_routerHop h
+  | swapOps ops mn to =>
+    simp only [bind_ok_iff] at h
+    obtain ⟨_, _, h⟩ := h
+    exact allowSub_routerSwapOps h
+  | swapOp o a to =>
+    simp only [bind_ok_iff] at h
+    obtain ⟨_, _, h⟩ := h
+    exact allowSub_routerHop h
   | assertMin a prev mn rcv =>
     simp only [bind_ok_iff, pure_ok_iff] at h
-    obtain ⟨_, _, rfl⟩ := h
+    obtain ⟨_, _, _, _, rfl⟩ := h
     exact .refl _
   | receive from_ amount hk => exact allowSub_routerReceive h
 
